@@ -1,0 +1,345 @@
+//go:build verif
+// +build verif
+
+package server
+
+import (
+	"context"
+	"encoding/json"
+	"fmt"
+	"io"
+	"net"
+	"strings"
+	"sync"
+	"sync/atomic"
+	"time"
+
+	"github.com/XiaoMi/Gaea/backend"
+	"github.com/XiaoMi/Gaea/log"
+	"github.com/XiaoMi/Gaea/models"
+	"github.com/XiaoMi/Gaea/mysql"
+	"github.com/XiaoMi/Gaea/util"
+	"github.com/gin-gonic/gin"
+)
+
+// Verification hooks for C38 (malformed client input never crashes the proxy).
+//
+// VerifC38Start builds, once per process, a Manager with one namespace whose
+// only slice is served by an in-memory backend that accepts every statement,
+// and a real Server (NewServer) listening on loopback.  On top of it:
+//   - VerifC38NewSession mirrors newSession for an arbitrary net.Conn (the
+//     production constructor insists on *net.TCPConn), so that the real
+//     Session.Handshake and Session.Run can be driven over a scripted
+//     in-memory connection;
+//   - Serve starts the real accept loop (Server.Run) for process-level runs.
+// Nothing here changes the behaviour of the code under test.
+
+// VerifC38HashedPassword is the stored ("*" + 40 hex digits) form of the
+// password of user verif_hash: SHA1(SHA1("hashpw")).
+const VerifC38HashedPassword = "*850BF038CFFD848B10CDDCFD984AB2E4F20463D4"
+
+const verifC38Namespace = `{
+    "name": "verif_c38_ns",
+    "online": true,
+    "read_only": false,
+    "allowed_dbs": {"db1": true},
+    "default_phy_dbs": {"db1": "db1"},
+    "slices": [
+        {"name": "slice-0", "user_name": "root", "password": "root", "master": "127.0.0.1:1",
+         "capacity": 4, "max_capacity": 4, "idle_timeout": 3600}
+    ],
+    "shard_rules": [],
+    "users": [
+        {"user_name": "verif_plain", "password": "plainpw", "namespace": "verif_c38_ns", "rw_flag": 2, "rw_split": 0},
+        {"user_name": "verif_hash", "password": "` + VerifC38HashedPassword + `", "namespace": "verif_c38_ns", "rw_flag": 2, "rw_split": 0}
+    ],
+    "default_slice": "slice-0",
+    "max_sql_execute_time": 0
+}`
+
+// verifC38Logger swallows the log output and counts the lines by which the
+// goroutine roots report a recovered panic.
+type verifC38Logger struct {
+	runPanics    int64 // "[server] Session Run panic error"
+	onConnPanics int64 // "[server] onConn panic error"
+}
+
+func (l *verifC38Logger) note(format string) {
+	if strings.HasPrefix(format, "[server] Session Run panic error") {
+		atomic.AddInt64(&l.runPanics, 1)
+	} else if strings.HasPrefix(format, "[server] onConn panic error") {
+		atomic.AddInt64(&l.onConnPanics, 1)
+	}
+}
+
+func (l *verifC38Logger) SetLevel(name, level string) error           { return nil }
+func (l *verifC38Logger) Debug(format string, a ...interface{}) error { return nil }
+func (l *verifC38Logger) Trace(format string, a ...interface{}) error { return nil }
+func (l *verifC38Logger) Notice(format string, a ...interface{}) error {
+	return nil
+}
+func (l *verifC38Logger) Warn(format string, a ...interface{}) error {
+	l.note(format)
+	return nil
+}
+func (l *verifC38Logger) Fatal(format string, a ...interface{}) error       { return nil }
+func (l *verifC38Logger) Debugx(id, format string, a ...interface{}) error  { return nil }
+func (l *verifC38Logger) Tracex(id, format string, a ...interface{}) error  { return nil }
+func (l *verifC38Logger) Noticex(id, format string, a ...interface{}) error { return nil }
+func (l *verifC38Logger) Warnx(id, format string, a ...interface{}) error   { return nil }
+func (l *verifC38Logger) Fatalx(id, format string, a ...interface{}) error  { return nil }
+func (l *verifC38Logger) Close()                                            {}
+func (l *verifC38Logger) Dropped(i int) uint64                              { return 0 }
+
+// verifC38Conn is a backend connection that accepts everything.
+type verifC38Conn struct{}
+
+func (c *verifC38Conn) Recycle()                               {}
+func (c *verifC38Conn) Reconnect() error                       { return nil }
+func (c *verifC38Conn) Close()                                 {}
+func (c *verifC38Conn) IsClosed() bool                         { return false }
+func (c *verifC38Conn) UseDB(db string) error                  { return nil }
+func (c *verifC38Conn) SetAutoCommit(uint8) error              { return nil }
+func (c *verifC38Conn) Begin() error                           { return nil }
+func (c *verifC38Conn) Commit() error                          { return nil }
+func (c *verifC38Conn) Rollback() error                        { return nil }
+func (c *verifC38Conn) Ping() error                            { return nil }
+func (c *verifC38Conn) PingWithTimeout(time.Duration) error    { return nil }
+func (c *verifC38Conn) GetAddr() string                        { return "mem:0" }
+func (c *verifC38Conn) GetConnectionID() int64                 { return 1 }
+func (c *verifC38Conn) GetReturnTime() time.Time               { return time.Time{} }
+func (c *verifC38Conn) MoreRowsExist() bool                    { return false }
+func (c *verifC38Conn) MoreResultsExist() bool                 { return false }
+func (c *verifC38Conn) WriteSetStatement() error               { return nil }
+func (c *verifC38Conn) FetchMoreRows(*mysql.Result, int) error { return nil }
+func (c *verifC38Conn) ReadMoreResult(int) (*mysql.Result, error) {
+	return &mysql.Result{}, nil
+}
+func (c *verifC38Conn) SetCharset(string, mysql.CollationID) (bool, error)        { return false, nil }
+func (c *verifC38Conn) FieldList(string, string) ([]*mysql.Field, error)          { return nil, nil }
+func (c *verifC38Conn) SetSessionVariables(*mysql.SessionVariables) (bool, error) { return false, nil }
+func (c *verifC38Conn) SyncSessionVariables(*mysql.SessionVariables) error        { return nil }
+func (c *verifC38Conn) Execute(sql string, maxRows int) (*mysql.Result, error) {
+	return &mysql.Result{Status: mysql.ServerStatusAutocommit, Resultset: nil}, nil
+}
+func (c *verifC38Conn) ExecuteWithTimeout(sql string, maxRows int, _ time.Duration) (*mysql.Result, error) {
+	return c.Execute(sql, maxRows)
+}
+
+type verifC38Pool struct{}
+
+func (p *verifC38Pool) Open() error                  { return nil }
+func (p *verifC38Pool) Addr() string                 { return "mem:0" }
+func (p *verifC38Pool) Datacenter() string           { return "" }
+func (p *verifC38Pool) Close()                       {}
+func (p *verifC38Pool) Put(backend.PooledConnect)    {}
+func (p *verifC38Pool) SetCapacity(int) error        { return nil }
+func (p *verifC38Pool) SetIdleTimeout(time.Duration) {}
+func (p *verifC38Pool) StatsJSON() string            { return "{}" }
+func (p *verifC38Pool) Capacity() int64              { return 4 }
+func (p *verifC38Pool) Available() int64             { return 4 }
+func (p *verifC38Pool) Active() int64                { return 0 }
+func (p *verifC38Pool) InUse() int64                 { return 0 }
+func (p *verifC38Pool) MaxCap() int64                { return 4 }
+func (p *verifC38Pool) WaitCount() int64             { return 0 }
+func (p *verifC38Pool) WaitTime() time.Duration      { return 0 }
+func (p *verifC38Pool) IdleTimeout() time.Duration   { return 0 }
+func (p *verifC38Pool) IdleClosed() int64            { return 0 }
+func (p *verifC38Pool) SetLastChecked()              {}
+func (p *verifC38Pool) GetLastChecked() int64        { return time.Now().Unix() } // always just checked: never marked down
+func (p *verifC38Pool) Get(context.Context) (backend.PooledConnect, error) {
+	return &verifC38Conn{}, nil
+}
+func (p *verifC38Pool) GetCheck(ctx context.Context) (backend.PooledConnect, error) {
+	return p.Get(ctx)
+}
+
+// VerifC38Env is the per-process environment.
+type VerifC38Env struct {
+	manager *Manager
+	srv     *Server
+	logger  *verifC38Logger
+}
+
+var (
+	verifC38Once sync.Once
+	verifC38E    *VerifC38Env
+	verifC38Err  error
+)
+
+// VerifC38Start returns the environment, building it on the first call.
+func VerifC38Start() (*VerifC38Env, error) {
+	verifC38Once.Do(func() { verifC38E, verifC38Err = verifC38Setup() })
+	return verifC38E, verifC38Err
+}
+
+func verifC38Setup() (*VerifC38Env, error) {
+	lg := &verifC38Logger{}
+	log.SetGlobalLogger(lg)
+	gin.SetMode(gin.ReleaseMode)
+	gin.DefaultWriter = io.Discard
+	nsCfg := &models.Namespace{}
+	if err := json.Unmarshal([]byte(verifC38Namespace), nsCfg); err != nil {
+		return nil, err
+	}
+	proxyCfg := &models.Proxy{
+		ConfigType: models.ConfigFile, Cluster: "verif", Service: "verif", StatsEnabled: "false", ServerIdc: "c3",
+		ProtoType: "tcp", ProxyAddr: "127.0.0.1:0", AdminAddr: "127.0.0.1:0", AdminUser: "admin", AdminPassword: "admin",
+		SessionTimeout: 3600, ServerVersion: "5.7.25-gaea", DefaultCharset: "utf8mb4",
+	}
+	m := NewManager()
+	sm := NewStatisticManager()
+	sm.manager = m
+	sm.clusterName = proxyCfg.Cluster
+	sm.SQLResponsePercentile = make(map[string]*SQLResponse)
+	if err := sm.Init(proxyCfg); err != nil {
+		return nil, err
+	}
+	sm.generalLogger = lg
+	m.statistics = sm
+	current, _, _ := m.switchIndex.Get()
+	cfgs := map[string]*models.Namespace{nsCfg.Name: nsCfg}
+	m.namespaces[current] = CreateNamespaceManager(proxyCfg.ServerIdc, cfgs)
+	users, err := CreateUserManager(cfgs)
+	if err != nil {
+		return nil, err
+	}
+	m.users[current] = users
+	ns := m.GetNamespace(nsCfg.Name)
+	if ns == nil {
+		return nil, fmt.Errorf("namespace %s was not created", nsCfg.Name)
+	}
+	ns.slices["slice-0"].Master = &backend.DBInfo{Nodes: []*backend.NodeInfo{
+		{Address: "mem:0", ConnPool: &verifC38Pool{}, Status: backend.StatusUp},
+	}}
+	ns.slices["slice-0"].Slave = &backend.DBInfo{}
+	srv, err := NewServer(proxyCfg, m)
+	if err != nil {
+		return nil, err
+	}
+	return &VerifC38Env{manager: m, srv: srv, logger: lg}, nil
+}
+
+// Addr is the address the real server listens on.
+func (e *VerifC38Env) Addr() string { return e.srv.listener.Addr().String() }
+
+// Serve runs the real accept loop (Server.Run) in a goroutine.
+func (e *VerifC38Env) Serve() { go e.srv.Run() }
+
+// SetAuthPlugin sets the server's configured authentication plugin.
+func (e *VerifC38Env) SetAuthPlugin(p string) { e.srv.AuthPlugin = p }
+
+// RecoveredPanics returns how many panics the deferred recovers of
+// Session.Run and Server.onConn have reported so far.
+func (e *VerifC38Env) RecoveredPanics() (run, onConn int64) {
+	return atomic.LoadInt64(&e.logger.runPanics), atomic.LoadInt64(&e.logger.onConnPanics)
+}
+
+// SessionCount is the session gauge of the namespace (leak detection).
+func (e *VerifC38Env) SessionCount() int64 {
+	counts := e.manager.statistics.sessionCounts.Counts()
+	var n int64
+	for _, v := range counts {
+		n += v
+	}
+	return n
+}
+
+// VerifC38Session is a Session over an arbitrary connection.
+type VerifC38Session struct {
+	cc *Session
+}
+
+// NewSession mirrors newSession (session.go) without the *net.TCPConn
+// assertion and SetNoDelay.
+//
+// The session gets a private, never started time wheel: Session.Run registers
+// every command with the server's wheel, whose queue is drained only once per
+// tick (5 s) and whose Remove blocks while the queue is full, which would make
+// thousands of scripted sessions per second wait for ticks. Idle timeouts are
+// not what these sessions are about (C37).
+func (e *VerifC38Env) NewSession(co net.Conn) *VerifC38Session {
+	srv := *e.srv
+	s := &srv
+	s.tw, _ = util.NewTimeWheel(time.Second, 1)
+	cc := new(Session)
+	cc.c = NewClientConn(mysql.NewConn(co), s.manager)
+	cc.proxy = s
+	cc.manager = s.manager
+	cc.c.SetConnectionID(atomic.AddUint32(&baseConnID, 1))
+	cc.c.proxy = s
+	cc.executor = newSessionExecutor(s.manager)
+	cc.executor.clientAddr = co.RemoteAddr().String()
+	cc.closed.Store(false)
+	cc.executor.session = cc
+	cc.executor.serverAddr = s.listener.Addr()
+	return &VerifC38Session{cc: cc}
+}
+
+// SetSalt fixes the scramble sent in the initial handshake.
+func (v *VerifC38Session) SetSalt(salt []byte) { v.cc.c.salt = append([]byte{}, salt...) }
+
+// VerifC38HandshakeResult is what Session.Handshake decided.
+type VerifC38HandshakeResult struct {
+	Err        error
+	Capability uint32
+	Collation  int
+	User       string
+	Auth       []byte
+	Database   string
+	AuthPlugin string
+	Namespace  string
+}
+
+// Handshake runs the real Session.Handshake.
+func (v *VerifC38Session) Handshake() VerifC38HandshakeResult {
+	info, err := v.cc.Handshake()
+	r := VerifC38HandshakeResult{Err: err, Capability: v.cc.c.capability, Namespace: v.cc.namespace}
+	if info != nil {
+		r.Collation = int(info.CollationID)
+		r.User = info.User
+		r.Auth = append([]byte{}, info.AuthResponse...)
+		r.Database = info.Database
+		r.AuthPlugin = info.AuthPlugin
+	}
+	return r
+}
+
+// DecodeHandshake sends the initial handshake and runs the real
+// ClientConn.readHandshakeResponse only (no authentication), so that the
+// decoded fields are seen before any password check touches them.
+func (v *VerifC38Session) DecodeHandshake() VerifC38HandshakeResult {
+	if err := v.cc.c.writeInitialHandshakeV10(); err != nil {
+		return VerifC38HandshakeResult{Err: err}
+	}
+	info, err := v.cc.c.readHandshakeResponse()
+	return VerifC38HandshakeResult{Err: err, Capability: v.cc.c.capability, Collation: int(info.CollationID), User: info.User,
+		Auth: append([]byte{}, info.AuthResponse...), Database: info.Database, AuthPlugin: info.AuthPlugin}
+}
+
+// Login puts the session into the state Server.onConn leaves it in after a
+// successful handshake of user verif_plain on database db.
+func (v *VerifC38Session) Login(db string) {
+	cc := v.cc
+	cc.c.capability = uint32(DefaultCapability)
+	cc.executor.user = "verif_plain"
+	cc.executor.SetCollationID(mysql.CollationID(33))
+	cc.executor.SetCharset("utf8")
+	cc.executor.SetDatabase(db)
+	cc.namespace = "verif_c38_ns"
+	cc.executor.namespace = cc.namespace
+	cc.c.namespace = cc.namespace
+	cc.executor.SetContextNamespace()
+	cc.executor.keepSession = cc.getNamespace().setForKeepSession
+	cc.executor.userPriv = cc.getNamespace().userProperties[cc.executor.user].RWFlag
+	cc.executor.userType = cc.getNamespace().userProperties[cc.executor.user].OtherProperty
+}
+
+// Run runs the real command loop (Session.Run) until it returns.
+func (v *VerifC38Session) Run() { v.cc.Run() }
+
+// Database is the session's current database.
+func (v *VerifC38Session) Database() string { return v.cc.executor.db }
+
+// StmtCount is the number of prepared statements the session holds.
+func (v *VerifC38Session) StmtCount() int { return len(v.cc.executor.stmts) }
